@@ -25,13 +25,18 @@ class C09(PropBase):
             'write_snapshots to a path (plain/.gz/.bz2) or an open binary file object, delimiters " " "," TAB ";", encodings utf-8/latin-1; '
             'the decoded text must be exactly one row u<delim>v<delim>t per interaction and present instant (orientation kept when directed); '
             'read_snapshots of that output must give the same presence at every instant; generated four-column rows u v t e must read as '
-            'the span t..e-1. non-trivial = graph with a multi-run timeline or a reciprocal directed pair')
+            'the span t..e-1; one large graph per class (about 9 000 rows) against block-size effects. non-trivial = graph with a '
+            'multi-run timeline or a reciprocal directed pair')
     validated_only = ['open_file decorator dispatch on .gz/.bz2, already-open binary file objects and the byte encoding are exercised, not modelled']
 
     def scopes(self, tier):
         return ['E2 histories (4 pair shapes, <= 2 calls, t in 0..2), both classes, one format each%s' % ('' if tier == 'thorough' else ' (every 6th)')]
 
     def exhaustive_cases(self, tier):
+        # one LARGE graph (thousands of rows): buffering / chunking defects of the writers only show beyond a block size
+        for directed in (False, True):
+            yield dict(directed=directed, removal=True, hist=[('add', 0, 1, 2, 0, 4700), ('add', 0, 2, 1, 4800, 9100)],
+                       family='int', functional=False, fmt=FMTS[5 if directed else 18], rows4=[])
         step = 1 if tier == 'thorough' else 6
         for directed in (False, True):
             for i, h in enumerate(gen.exhaustive_E2(max_len=2, tmax=2)):
